@@ -10,6 +10,8 @@ import (
 	"reflect"
 	"regexp"
 	"runtime"
+	"runtime/debug"
+	"runtime/pprof"
 	"sort"
 	"strings"
 	"syscall"
@@ -52,7 +54,14 @@ func main() {
 	maxPaths := flag.Int("maxpaths", 20000, "path limit per harness")
 	seed := flag.Int64("seed", 1, "seed")
 	budget := flag.Int("budget", 0, "per-obligation solver budget in ms (0 = tier default)")
+	cpuprof := flag.String("cpuprofile", "", "write a CPU profile")
 	flag.Parse()
+	debug.SetGCPercent(400)
+	if *cpuprof != "" {
+		f, _ := os.Create(*cpuprof)
+		pprof.StartCPUProfile(f)
+		defer pprof.StopCPUProfile()
+	}
 
 	if *nativeReplay != "" {
 		os.Exit(runNative(*nativeReplay, *tier))
@@ -170,6 +179,7 @@ func main() {
 		opts.HarnessTimeS = 0
 	}
 	code := report(*prop, *tier, *seed, results, kf, *out, time.Since(t0).Seconds(), eng)
+	pprof.StopCPUProfile()
 	os.Exit(code)
 }
 
